@@ -180,12 +180,12 @@ Definition entry_topic_check (args : list Z) : list Z :=
   | _ => [-2]
   end.
 
-(* 4: publish() checks: [v; qos; kind; plen; topic bytes] *)
+(* 4: publish() checks: [v; qos; kind; plen; proplen; topic bytes] *)
 Definition entry_publish_args_check (args : list Z) : list Z :=
   match args with
-  | v :: q :: k :: n :: rest =>
+  | v :: q :: k :: n :: pl :: rest =>
       match take_bytes rest with
-      | Some (s, []) => enc_res (fun _ => []) (publish_args_check (dec_version v) s q (dec_pkind k) n)
+      | Some (s, []) => enc_res (fun _ => []) (publish_args_check (dec_version v) s q (dec_pkind k) n pl)
       | _ => [-2]
       end
   | _ => [-2]
@@ -215,9 +215,9 @@ Definition entry_unsubscribe_norm (args : list Z) : list Z :=
 (* 8: the publish() contract: same input as 4 -> [spec_publish_ok; spec_topic_ok] *)
 Definition entry_spec_publish_ok (args : list Z) : list Z :=
   match args with
-  | v :: q :: k :: n :: rest =>
+  | v :: q :: k :: n :: pl :: rest =>
       match take_bytes rest with
-      | Some (s, []) => [b2z (spec_publish_ok (dec_version v) s q (dec_pkind k) n);
+      | Some (s, []) => [b2z (spec_publish_ok (dec_version v) s q (dec_pkind k) n pl);
                          b2z (spec_topic_ok (dec_version v) s)]
       | _ => [-2]
       end
@@ -242,11 +242,11 @@ Definition entry_strings_all (args : list Z) : list Z :=
 (* 11: input of 4 -> [publish_args_check result code; spec_publish_ok; spec_topic_ok] *)
 Definition entry_publish_both (args : list Z) : list Z :=
   match args with
-  | v :: q :: k :: n :: rest =>
+  | v :: q :: k :: n :: pl :: rest =>
       match take_bytes rest with
       | Some (s, []) =>
-          enc_res (fun _ => []) (publish_args_check (dec_version v) s q (dec_pkind k) n) ++
-          [b2z (spec_publish_ok (dec_version v) s q (dec_pkind k) n); b2z (spec_topic_ok (dec_version v) s)]
+          enc_res (fun _ => []) (publish_args_check (dec_version v) s q (dec_pkind k) n pl) ++
+          [b2z (spec_publish_ok (dec_version v) s q (dec_pkind k) n pl); b2z (spec_topic_ok (dec_version v) s)]
       | _ => [-2]
       end
   | _ => [-2]
@@ -257,4 +257,19 @@ Definition entry_subscribe_both (args : list Z) : list Z :=
   match parse_sub_call args with
   | Some (v, a) => b2z (documented_ok v a) :: b2z (documented_shape v a) :: enc_res enc_pairs (subscribe_norm v a)
   | None => [-2]
+  end.
+
+(* 13: proplen :: input of 5 -> [documented_ok; documented_shape; spec remaining length of the
+   documented request] ++ result of subscribe() on a connected client *)
+Definition entry_subscribe_connected (args : list Z) : list Z :=
+  match args with
+  | pl :: rest =>
+      match parse_sub_call rest with
+      | Some (v, a) =>
+          b2z (documented_ok v a) :: b2z (documented_shape v a)
+          :: spec_subscribe_remaining_length v pl (documented_request v a)
+          :: enc_res enc_pairs (subscribe_connected v pl a)
+      | None => [-2]
+      end
+  | [] => [-2]
   end.
